@@ -108,12 +108,12 @@ def gen_near_clean(rng):
 def gen_raw(rng):
     k = rng.randint(1, 7)
     pool = ["a", "b", "c", "d", "e", "g", "h"]
-    insts = ["f0", "u1"]
+    insts = ["f0", "u1"] if rng.random() < 0.85 else ["f0", "f0.u1"]       # an instance name may itself contain a dot
     names = []
     for i in range(k):
         r = rng.random()
         if r < 0.3:
-            names.append(rng.choice(insts + ["zz"]) + "." + rng.choice(["d", "q", "clk"]))
+            names.append(rng.choice(insts + ["zz"]) + "." + rng.choice(["d", "q", "clk", "d.0", "q.x", "u1.d"]))
         else:
             names.append(pool[i])
     names = list(dict.fromkeys(names))
@@ -153,7 +153,8 @@ def gen_raw(rng):
 
 
 PRODUCERS = ["limit_fanin", "limit_fanout", "ternary", "miter", "half_adder", "full_adder", "adder", "mux", "popcount",
-             "strip_blackboxes", "copy", "relabel"]
+             "strip_blackboxes", "copy", "relabel", "fill_nested", "subcircuit_nested", "fill_nested", "subcircuit_nested",
+             "unroll", "insert_registers", "acyclic_unroll", "sensitization", "verilog_roundtrip", "bench_roundtrip"]
 
 
 def gen_produced(rng):
@@ -171,6 +172,26 @@ def gen_produced(rng):
         d = lib.rand_dag(rng, rng.randint(2, 3), rng.randint(1, 5), max_fanin=3)
         case["circuit"] = d
         case["flop_on"] = rng.choice([n[0] for n in d["nodes"]])
+    elif fn in ("fill_nested", "subcircuit_nested"):
+        # parent with a blackbox instance `u`; child = a small circuit that itself contains a flop instance whose
+        # instance name differs from its type name ("fully connected composition calls")
+        case["parent"] = lib.rand_dag(rng, rng.randint(2, 3), rng.randint(1, 3), max_fanin=2)
+        child = lib.rand_dag(rng, 2, rng.randint(1, 3), max_fanin=2, p_out=0.0, sinks_out=False, names=lambda i: f"k{i}")
+        for n in child["nodes"]:
+            n[2] = False
+        child["nodes"][-1][2] = True
+        case["child"] = lib.add_flop(rng, child, inst=rng.choice(["r0", "reg_a", "ff"]), on=child["nodes"][-1][0], clk="k0", bbname="ff")
+        case["inst"] = rng.choice(["u", "acc", "u_1"])
+    elif fn in ("unroll", "insert_registers", "sensitization", "verilog_roundtrip", "bench_roundtrip"):
+        case["circuit"] = lib.rand_dag(rng, rng.randint(2, 3), rng.randint(2, 6), max_fanin=3, p_const=0.2 if fn.endswith("roundtrip") else 0.0)
+        case["k"] = rng.randint(1, 2)
+    elif fn == "acyclic_unroll":
+        d = lib.rand_dag(rng, rng.randint(1, 3), rng.randint(2, 5), types=lib.MULTI, max_fanin=3, allow_single_multi=False)
+        gates = [n for n in d["nodes"] if n[1] in lib.MULTI]
+        if len(gates) >= 2:       # one feedback edge from a later gate to an earlier one
+            a, b = sorted(rng.sample(range(len(gates)), 2))
+            gates[a][3] = sorted(set(gates[a][3]) | {gates[b][0]})
+        case["circuit"] = d
     return case
 
 
@@ -230,6 +251,39 @@ def impl(case):
             c.add("clk", "input")
             c.add_blackbox(cg.BlackBox("ff", ["clk", "d"], ["q"]), "ff0", {"d": n, "q": q, "clk": "clk"})
             r = cg.tx.strip_blackboxes(c)
+        elif fn in ("fill_nested", "subcircuit_nested"):
+            par, ch, inst = lib.build_circuit(case["parent"]), lib.build_circuit(case["child"]), case["inst"]
+            if _lint(par) != "ok" or _lint(ch) != "ok":
+                return {"producer_exc": "precondition"}
+            ins, outs = sorted(ch.inputs()), sorted(ch.outputs())
+            srcs = sorted(par.inputs())
+            conns = {i: srcs[k % len(srcs)] for k, i in enumerate(ins)}
+            for k, o in enumerate(outs):
+                conns[o] = par.add(f"ld{k}", "buf", output=True)
+            if fn == "fill_nested":
+                par.add_blackbox(cg.BlackBox("blk", ins, outs), inst, conns)
+                par.fill_blackbox(inst, ch)
+            else:
+                par.add_subcircuit(ch, inst, conns)
+            r = par
+        elif fn == "unroll":
+            outs = sorted(c.outputs() - c.inputs()); ins = sorted(c.inputs())
+            if not outs or len(ins) < 2:
+                return {"producer_exc": "precondition"}
+            r, _ = cg.tx.unroll(c, case["k"] + 1, {outs[0]: ins[0]})
+        elif fn == "insert_registers":
+            r = cg.tx.insert_registers(c, case["k"])
+        elif fn == "acyclic_unroll":
+            if _lint(c) != "ok":
+                return {"producer_exc": "precondition"}
+            r = cg.tx.acyclic_unroll(c)
+        elif fn == "sensitization":
+            n = sorted(c.nodes() - c.outputs())[0] if c.nodes() - c.outputs() else sorted(c.nodes())[0]
+            r = cg.tx.sensitization_transform(c, n)
+        elif fn == "verilog_roundtrip":
+            r = cg.io.verilog_to_circuit(cg.io.circuit_to_verilog(c, behavioral=case["k"] == 2), c.name)
+        elif fn == "bench_roundtrip":
+            r = cg.io.bench_to_circuit(cg.io.circuit_to_bench(c), c.name)
     except Exception as e:
         return {"producer_exc": type(e).__name__}
     return {"out": lib.dump_circuit(r), "lint": _lint(r)}
